@@ -255,14 +255,37 @@ Proof.
   destruct (decl c); [reflexivity|exact IH].
 Qed.
 
+Lemma supers_In' I c ss : supers I c = Some ss -> In (c, ss) I.
+Proof.
+  induction I as [|[k v] I IH]; cbn [supers]; [discriminate|].
+  destruct (str_eqb_spec c k) as [->|_]; [intros [= ->]; left; reflexivity|]. intros H. right. apply IH. exact H.
+Qed.
+
+(* the search without the cycle check (what the code was before the repair, and what it still is on
+   every provider without a reachable cycle: map_member_fail_search below) *)
+Fixpoint search (sel : bclass -> mtable) (fuel : nat) (R : bremap) (I : inh)
+         (owner : str) (k : key) : res (option key) :=
+  match fuel with
+  | O => Err
+  | S f =>
+      match declared sel R owner k with
+      | Some v => Ok (Some v)
+      | None =>
+          match supers I owner with
+          | Some ss => first_some (fun s => search sel f R I s k) ss
+          | None => Ok None
+          end
+      end
+  end.
+
 (* with enough fuel the search is "first declaring type in pre-order" *)
-Theorem map_member_fail_spec sel R I k : forall fuel c,
+Lemma search_spec sel R I k : forall fuel c,
   bounded fuel I c = true ->
-  map_member_fail sel fuel R I c k =
+  search sel fuel R I c k =
   Ok (first_declaring (fun x => declared sel R x k) (dfs_pre fuel I c)).
 Proof.
   induction fuel as [|f IH]; intros c Hb; cbn [bounded] in Hb; [discriminate|].
-  cbn [map_member_fail dfs_pre first_declaring].
+  cbn [search dfs_pre first_declaring].
   destruct (declared sel R c k) as [v|]; [reflexivity|].
   destruct (supers I c) as [ss|]; [|reflexivity].
   induction ss as [|s ss IHss]; cbn [first_some flat_map first_declaring]; [reflexivity|].
@@ -286,14 +309,6 @@ Proof.
   destruct H as [H1 H2]. rewrite H1, H2. auto.
 Qed.
 
-Theorem map_member_fail_fuel sel R I k f f' c :
-  bounded f I c = true -> (f <= f')%nat ->
-  map_member_fail sel f' R I c k = map_member_fail sel f R I c k.
-Proof.
-  intros Hb Hle. destruct (bounded_mono I f f' c Hb Hle) as [Hb' Hd].
-  rewrite (map_member_fail_spec sel R I k f' c Hb'), (map_member_fail_spec sel R I k f c Hb), Hd. reflexivity.
-Qed.
-
 (* acyclic: some rank strictly decreases along every super-type edge *)
 Definition acyclic_rank (I : inh) (rank : str -> nat) : Prop :=
   forall c ss s, supers I c = Some ss -> In s ss -> (rank s < rank c)%nat.
@@ -303,6 +318,313 @@ Proof.
   intros Ha. induction n as [|n IH]; intros c Hc; [lia|]. cbn [bounded].
   destruct (supers I c) as [ss|] eqn:E; [|reflexivity].
   apply forallb_forall. intros s Hs. apply IH. specialize (Ha c ss s E Hs). lia.
+Qed.
+
+Lemma first_some_ext_in g h ss : (forall s, In s ss -> g s = h s) -> first_some g ss = first_some h ss.
+Proof.
+  induction ss as [|s ss IH]; intros H; cbn [first_some]; [reflexivity|].
+  rewrite (H s (or_introl eq_refl)). destruct (h s) as [[v|]|]; try reflexivity.
+  apply IH. intros x Hx. apply H. right. exact Hx.
+Qed.
+
+Lemma first_some_all_none g ss : (forall s, In s ss -> g s = Ok None) -> first_some g ss = Ok None.
+Proof.
+  induction ss as [|s ss IH]; intros H; cbn [first_some]; [reflexivity|].
+  rewrite (H s (or_introl eq_refl)). apply IH. intros x Hx. apply H. right. exact Hx.
+Qed.
+
+Lemma first_some_none_all g ss : first_some g ss = Ok None -> forall s, In s ss -> g s = Ok None.
+Proof.
+  induction ss as [|s ss IH]; cbn [first_some]; intros H x Hx; [destruct Hx|].
+  destruct (g s) as [[v|]|] eqn:E; try discriminate. destruct Hx as [<-|Hx]; [exact E|]. apply IH; assumption.
+Qed.
+
+Lemma existsb_str_false c l : ~ In c l -> existsb (str_eqb c) l = false.
+Proof.
+  intros H. destruct (existsb (str_eqb c) l) eqn:E; [|reflexivity]. exfalso. apply H.
+  apply existsb_exists in E as (x & Hx & E). apply str_eqb_eq in E. subst. exact Hx.
+Qed.
+
+Lemma existsb_str_true c l : In c l -> existsb (str_eqb c) l = true.
+Proof. intros H. apply existsb_exists. exists c. split; [exact H|apply str_eqb_refl]. Qed.
+
+Lemma existsb_str_In c l : existsb (str_eqb c) l = true -> In c l.
+Proof. intros E. apply existsb_exists in E as (x & Hx & E). apply str_eqb_eq in E. subst. exact Hx. Qed.
+
+Lemma supers_key I c ss : supers I c = Some ss -> In c (map fst I).
+Proof.
+  induction I as [|[k v] I IH]; cbn [supers map fst]; [discriminate|].
+  destruct (str_eqb_spec c k) as [->|_]; [intros _; left; reflexivity|]. intros H. right. apply IH. exact H.
+Qed.
+
+(* ------------------------------------------------------------------ *)
+(* the path-only search (specification) *)
+
+(* The cycle check never fires inside a part P of the provider that is closed under super types and
+   on which some rank decreases along every edge, provided every class on the path is outside P or
+   has a larger rank. *)
+Lemma map_member_fail_p_search sel R I (P : str -> Prop) rank k :
+  (forall c ss s, P c -> supers I c = Some ss -> In s ss -> P s /\ (rank s < rank c)%nat) ->
+  forall fuel p c, P c -> (forall x, In x p -> ~ P x \/ (rank c < rank x)%nat) ->
+  map_member_fail_p sel fuel R I p c k = search sel fuel R I c k.
+Proof.
+  intros Ha. induction fuel as [|f IH]; intros p c Pc Hp; [reflexivity|].
+  cbn [map_member_fail_p search].
+  rewrite existsb_str_false by (intros Hin; destruct (Hp c Hin) as [H|H]; [exact (H Pc)|lia]).
+  destruct (declared sel R c k) as [v|]; [reflexivity|].
+  destruct (supers I c) as [ss|] eqn:E; [|reflexivity].
+  apply first_some_ext_in. intros s Hs. destruct (Ha c ss s Pc E Hs) as [Ps Hlt]. apply IH; [exact Ps|].
+  intros x [<-|Hx]; [right; exact Hlt|]. destruct (Hp x Hx) as [H|H]; [left; exact H|right; lia].
+Qed.
+
+(* the height of a class whose traversal is bounded: a rank that needs no witness *)
+Fixpoint maxl (l : list nat) : nat := match l with [] => O | x :: l' => Nat.max x (maxl l') end.
+Lemma maxl_ge x l : In x l -> (x <= maxl l)%nat.
+Proof. induction l as [|y l IH]; intros H; [destruct H|]. cbn [maxl]. destruct H as [<-|H]; [lia|]. specialize (IH H). lia. Qed.
+
+Fixpoint height (fuel : nat) (I : inh) (c : str) : nat :=
+  match fuel with
+  | O => O
+  | S f => match supers I c with Some ss => S (maxl (map (height f I) ss)) | None => 1 end
+  end.
+
+Lemma height_mono I : forall f f' c, bounded f I c = true -> (f <= f')%nat -> height f' I c = height f I c.
+Proof.
+  induction f as [|f IH]; intros f' c Hb Hle; cbn [bounded] in Hb; [discriminate|].
+  destruct f' as [|f']; [lia|]. cbn [height].
+  destruct (supers I c) as [ss|]; [|reflexivity]. f_equal. f_equal.
+  apply map_ext_in. intros s Hs. rewrite forallb_forall in Hb. apply IH; [apply Hb; exact Hs|lia].
+Qed.
+
+Lemma bounded_edge I n c ss s : bounded n I c = true -> supers I c = Some ss -> In s ss ->
+  bounded n I s = true /\ (height n I s < height n I c)%nat.
+Proof.
+  destruct n as [|n]; [cbn [bounded]; discriminate|]. intros Hb E Hs.
+  assert (Hbs : bounded n I s = true).
+  { cbn [bounded] in Hb. rewrite E in Hb. rewrite forallb_forall in Hb. exact (Hb s Hs). }
+  split; [apply (bounded_mono I n (S n) s Hbs); lia|].
+  rewrite (height_mono I n (S n) s Hbs) by lia.
+  change (height (S n) I c) with (match supers I c with Some ss => S (maxl (map (height n I) ss)) | None => 1%nat end).
+  rewrite E.
+  pose proof (maxl_ge (height n I s) (map (height n I) ss) (in_map _ _ _ Hs)). lia.
+Qed.
+
+(* c has d as a proper super type (one or more edges) *)
+Inductive reachp (I : inh) : str -> str -> Prop :=
+| reachp_one c ss s : supers I c = Some ss -> In s ss -> reachp I c s
+| reachp_step c ss s d : supers I c = Some ss -> In s ss -> reachp I s d -> reachp I c d.
+
+Lemma reachp_snoc I z c ss s : reachp I z c -> supers I c = Some ss -> In s ss -> reachp I z s.
+Proof.
+  induction 1 as [c0 ss0 s0 E0 H0|c0 ss0 s0 d E0 H0 _ IH]; intros E Hs.
+  - eapply reachp_step; [exact E0|exact H0|]. eapply reachp_one; eauto.
+  - eapply reachp_step; [exact E0|exact H0|]. apply IH; assumption.
+Qed.
+
+Lemma reachp_height I n z c : reachp I z c -> bounded n I z = true ->
+  bounded n I c = true /\ (height n I c < height n I z)%nat.
+Proof.
+  induction 1 as [c0 ss0 s0 E0 H0|c0 ss0 s0 d E0 H0 _ IH]; intros Hb.
+  - apply (bounded_edge I n c0 ss0 s0 Hb E0 H0).
+  - destruct (bounded_edge I n c0 ss0 s0 Hb E0 H0) as [Hbs Hlt]. destruct (IH Hbs) as [Hbd Hlt2]. split; [exact Hbd|lia].
+Qed.
+
+(* inside a bounded traversal the cycle check never fires, whatever proper sub types are on the path *)
+Lemma map_member_fail_p_bounded sel R I k fuel p c : bounded fuel I c = true ->
+  (forall z, In z p -> reachp I z c) ->
+  map_member_fail_p sel fuel R I p c k = search sel fuel R I c k.
+Proof.
+  intros Hb Hp.
+  apply (map_member_fail_p_search sel R I (fun x => bounded fuel I x = true) (height fuel I) k); [|exact Hb|].
+  - intros c' ss s Hc' E Hs. apply (bounded_edge I fuel c' ss s Hc' E Hs).
+  - intros x Hx. destruct (bounded fuel I x) eqn:Ex; [right|left; discriminate].
+    apply (reachp_height I fuel x c (Hp x Hx) Ex).
+Qed.
+
+(* The classes on the path are pairwise distinct keys of the provider, so there are at most
+   [length I] of them: with [S (length I)] levels of fuel the bottom is never reached. *)
+Lemma map_member_fail_p_fuel sel R I k : forall f f' p c,
+  NoDup p -> incl p (map fst I) -> (S (length I) <= length p + f)%nat -> (f <= f')%nat ->
+  map_member_fail_p sel f' R I p c k = map_member_fail_p sel f R I p c k.
+Proof.
+  induction f as [|f IH]; intros f' p c Hnd Hincl Hlen Hle.
+  - exfalso. pose proof (NoDup_incl_length Hnd Hincl) as H. rewrite map_length in H. lia.
+  - destruct f' as [|f']; [lia|]. cbn [map_member_fail_p].
+    destruct (existsb (str_eqb c) p) eqn:Ex; [reflexivity|].
+    destruct (declared sel R c k) as [v|]; [reflexivity|].
+    destruct (supers I c) as [ss|] eqn:E; [|reflexivity].
+    apply first_some_ext_in. intros s _. apply IH.
+    + constructor; [|exact Hnd]. intros Hin. rewrite (existsb_str_true _ _ Hin) in Ex. discriminate.
+    + intros x [<-|Hx]; [eapply supers_key; exact E|apply Hincl; exact Hx].
+    + cbn [length]. lia.
+    + lia.
+Qed.
+
+(* "nothing found" means the whole traversal finished: it is bounded and declares nothing *)
+Lemma map_member_fail_p_none sel R I k : forall f p c,
+  map_member_fail_p sel f R I p c k = Ok None -> bounded f I c = true /\ search sel f R I c k = Ok None.
+Proof.
+  induction f as [|f IH]; intros p c H; cbn [map_member_fail_p] in H; [discriminate|].
+  destruct (existsb (str_eqb c) p); [discriminate|]. cbn [bounded search].
+  destruct (declared sel R c k) as [v|]; [discriminate|].
+  destruct (supers I c) as [ss|]; [|auto].
+  pose proof (first_some_none_all _ _ H) as Hall. split.
+  - apply forallb_forall. intros s Hs. apply (IH _ _ (Hall s Hs)).
+  - apply first_some_all_none. intros s Hs. apply (IH _ _ (Hall s Hs)).
+Qed.
+
+Lemma search_bounded_eq sel R I k a b c : bounded a I c = true -> bounded b I c = true ->
+  search sel a R I c k = search sel b R I c k.
+Proof.
+  intros Ha Hb. rewrite (search_spec sel R I k a c Ha), (search_spec sel R I k b c Hb).
+  destruct (Nat.le_ge_cases a b) as [H|H].
+  - rewrite (proj2 (bounded_mono I a b c Ha H)). reflexivity.
+  - rewrite (proj2 (bounded_mono I b a c Hb H)). reflexivity.
+Qed.
+
+(* ------------------------------------------------------------------ *)
+(* the memo of finished owners never changes an answer *)
+
+(* [x] is clean: no cycle can be reached from it and nothing on the way declares the key *)
+Definition clean sel R I k (x : str) : Prop :=
+  exists f0, bounded f0 I x = true /\ search sel f0 R I x k = Ok None.
+
+(* enough fuel: by counting (any provider), or because the traversal from the owner is bounded *)
+Definition suff (I : inh) (fuel : nat) (p : list str) (c : str) : Prop :=
+  (NoDup p /\ incl p (map fst I) /\ (S (length I) <= length p + fuel)%nat) \/ bounded fuel I c = true.
+
+Lemma suff_down I f p c ss s : suff I (S f) p c -> existsb (str_eqb c) p = false ->
+  supers I c = Some ss -> In s ss -> suff I f (c :: p) s.
+Proof.
+  intros [(Hnd & Hincl & Hlen)|Hb] Ex E Hs.
+  - left. split; [|split].
+    + constructor; [|exact Hnd]. intros Hin. rewrite (existsb_str_true _ _ Hin) in Ex. discriminate.
+    + intros x [<-|Hx]; [eapply supers_key; exact E|apply Hincl; exact Hx].
+    + cbn [length]. lia.
+  - right. cbn [bounded] in Hb. rewrite E in Hb. rewrite forallb_forall in Hb. apply Hb. exact Hs.
+Qed.
+
+Lemma clean_none sel R I k fuel p x : suff I fuel p x -> (forall z, In z p -> reachp I z x) ->
+  clean sel R I k x -> map_member_fail_p sel fuel R I p x k = Ok None.
+Proof.
+  intros Hsuff Hp (f0 & Hb0 & Hs0). destruct Hsuff as [(Hnd & Hincl & Hlen)|Hb].
+  - rewrite <- (map_member_fail_p_fuel sel R I k fuel (Nat.max fuel f0) p x Hnd Hincl Hlen) by lia.
+    assert (Hbm : bounded (Nat.max fuel f0) I x = true) by (apply (bounded_mono I f0 _ x Hb0); lia).
+    rewrite (map_member_fail_p_bounded sel R I k _ p x Hbm Hp).
+    rewrite (search_bounded_eq sel R I k _ f0 x Hbm Hb0). exact Hs0.
+  - rewrite (map_member_fail_p_bounded sel R I k _ p x Hb Hp).
+    rewrite (search_bounded_eq sel R I k _ f0 x Hb Hb0). exact Hs0.
+Qed.
+
+Definition agrees sel R I k (o : outcome) (r : res (option key)) : Prop :=
+  match o with
+  | Found v => r = Ok (Some v)
+  | Bail => r = Err
+  | NotFound fl => r = Ok None /\ forall x, In x fl -> clean sel R I k x
+  end.
+
+Theorem map_member_fail_m_equiv sel R I k : forall fuel p fl c,
+  suff I fuel p c -> (forall z, In z p -> reachp I z c) -> (forall x, In x fl -> clean sel R I k x) ->
+  agrees sel R I k (map_member_fail_m sel fuel R I k p fl c) (map_member_fail_p sel fuel R I p c k).
+Proof.
+  induction fuel as [|f IH]; intros p fl c Hsuff Hp Hfl; [reflexivity|].
+  cbn [map_member_fail_m map_member_fail_p].
+  destruct (existsb (str_eqb c) p) eqn:Ex; [reflexivity|].
+  destruct (existsb (str_eqb c) fl) eqn:Efl.
+  - (* a finished owner *)
+    apply existsb_str_In in Efl. split; [|exact Hfl].
+    pose proof (clean_none sel R I k (S f) p c Hsuff Hp (Hfl c Efl)) as H.
+    cbn [map_member_fail_p] in H. rewrite Ex in H. exact H.
+  - destruct (declared sel R c k) as [v|] eqn:Ed; [reflexivity|].
+    destruct (supers I c) as [ss|] eqn:E.
+    + (* the super types, threading the finished owners *)
+      assert (Hfold : forall ss' fl0, incl ss' ss -> (forall x, In x fl0 -> clean sel R I k x) ->
+                match fold_st (fun fl1 s => map_member_fail_m sel f R I k (c :: p) fl1 s) fl0 ss' with
+                | Found v => first_some (fun s => map_member_fail_p sel f R I (c :: p) s k) ss' = Ok (Some v)
+                | Bail => first_some (fun s => map_member_fail_p sel f R I (c :: p) s k) ss' = Err
+                | NotFound fl' => (forall s, In s ss' -> map_member_fail_p sel f R I (c :: p) s k = Ok None) /\
+                                  forall x, In x fl' -> clean sel R I k x
+                end).
+      { induction ss' as [|s ss' IHss]; intros fl0 Hincl Hfl0; cbn [fold_st first_some].
+        - split; [intros s []|exact Hfl0].
+        - assert (Hs : In s ss) by (apply Hincl; left; reflexivity).
+          pose proof (IH (c :: p) fl0 s (suff_down I f p c ss s Hsuff Ex E Hs)) as Hone.
+          assert (Hp' : forall z, In z (c :: p) -> reachp I z s).
+          { intros z [<-|Hz]; [eapply reachp_one; eauto|eapply reachp_snoc; eauto]. }
+          specialize (Hone Hp' Hfl0). unfold agrees in Hone.
+          destruct (map_member_fail_m sel f R I k (c :: p) fl0 s) as [v| |fl1].
+          + rewrite Hone. reflexivity.
+          + rewrite Hone. reflexivity.
+          + destruct Hone as [Hn Hfl1]. rewrite Hn.
+            specialize (IHss fl1 (fun x Hx => Hincl x (or_intror Hx)) Hfl1).
+            destruct (fold_st _ fl1 ss') as [v| |fl2]; try exact IHss.
+            destruct IHss as [Hall Hfl2]. split; [|exact Hfl2].
+            intros x [<-|Hx]; [exact Hn|apply Hall; exact Hx]. }
+      specialize (Hfold ss fl (fun x Hx => Hx) Hfl).
+      destruct (fold_st _ fl ss) as [v| |fl']; cbn [agrees]; try exact Hfold.
+      destruct Hfold as [Hall Hfl']. split; [apply first_some_all_none; exact Hall|].
+      intros x [<-|Hx]; [|apply Hfl'; exact Hx].
+      exists (S f). cbn [bounded search]. rewrite Ed, E. split.
+      * apply forallb_forall. intros s Hs. apply (map_member_fail_p_none sel R I k f _ s (Hall s Hs)).
+      * apply first_some_all_none. intros s Hs. apply (map_member_fail_p_none sel R I k f _ s (Hall s Hs)).
+    + split; [reflexivity|]. intros x [<-|Hx]; [|apply Hfl; exact Hx].
+      exists 1%nat. cbn [bounded search]. rewrite Ed, E. auto.
+Qed.
+
+(* the search of the code (with the memo) is the path-only search, for every provider with the default
+   fuel or more, and for every fuel that bounds the traversal *)
+Theorem map_member_fail_eq_p sel R I k fuel c : suff I fuel [] c ->
+  map_member_fail sel fuel R I c k = map_member_fail_p sel fuel R I [] c k.
+Proof.
+  intros Hs. unfold map_member_fail.
+  pose proof (map_member_fail_m_equiv sel R I k fuel [] [] c Hs (fun z (H : In z []) => match H with end)
+                (fun x (H : In x []) => match H with end)) as H.
+  destruct (map_member_fail_m sel fuel R I k [] [] c) as [v| |fl]; cbn [agrees outcome_res] in *.
+  - symmetry. exact H.
+  - symmetry. exact H.
+  - symmetry. exact (proj1 H).
+Qed.
+
+Lemma suff_default I fuel c : (default_fuel I <= fuel)%nat -> suff I fuel [] c.
+Proof.
+  intros H. left. split; [constructor|]. split; [intros x []|]. unfold default_fuel in H. cbn [length]. lia.
+Qed.
+
+(* the cycle check never fires when the traversal from the owner is bounded *)
+Theorem map_member_fail_bounded sel R I k fuel c : bounded fuel I c = true ->
+  map_member_fail sel fuel R I c k = search sel fuel R I c k.
+Proof.
+  intros Hb. rewrite (map_member_fail_eq_p sel R I k fuel c (or_intror Hb)).
+  apply map_member_fail_p_bounded; [exact Hb|intros z []].
+Qed.
+
+(* with enough fuel the search is "first declaring type in pre-order" *)
+Theorem map_member_fail_spec sel R I k fuel c :
+  bounded fuel I c = true ->
+  map_member_fail sel fuel R I c k =
+  Ok (first_declaring (fun x => declared sel R x k) (dfs_pre fuel I c)).
+Proof.
+  intros Hb. rewrite (map_member_fail_bounded sel R I k fuel c Hb). apply search_spec. exact Hb.
+Qed.
+
+(* any amount of fuel that bounds the height gives the same answer *)
+Theorem map_member_fail_fuel sel R I k f f' c :
+  bounded f I c = true -> (f <= f')%nat ->
+  map_member_fail sel f' R I c k = map_member_fail sel f R I c k.
+Proof.
+  intros Hb Hle. destruct (bounded_mono I f f' c Hb Hle) as [Hb' Hd].
+  rewrite (map_member_fail_spec sel R I k f' c Hb'), (map_member_fail_spec sel R I k f c Hb), Hd.
+  reflexivity.
+Qed.
+
+(* decidable acyclicity without a rank witness: the traversal from every key is bounded by the
+   default fuel; the height is then a rank *)
+Definition acyclic_dec (I : inh) : bool := forallb (fun e => bounded (default_fuel I) I (fst e)) I.
+
+Theorem acyclic_dec_rank I : acyclic_dec I = true -> acyclic_rank I (height (default_fuel I) I).
+Proof.
+  intros H c ss s E Hs. apply (bounded_edge I (default_fuel I) c ss s); [|exact E|exact Hs].
+  apply supers_In' in E. unfold acyclic_dec in H. rewrite forallb_forall in H. exact (H _ E).
 Qed.
 
 (* a witness of unboundedness: a path of super-type edges *)
@@ -325,12 +647,6 @@ Proof.
     destruct H as (s & Hin & Hs). destruct (IH s Hs) as (l & Hl & Hp).
     exists (c :: l). split; [cbn [length]; lia|]. cbn [path]. split; [reflexivity|].
     exists ss, s. auto.
-Qed.
-
-Lemma supers_key I c ss : supers I c = Some ss -> In c (map fst I).
-Proof.
-  induction I as [|[k v] I IH]; cbn [supers map fst]; [discriminate|].
-  destruct (str_eqb_spec c k) as [->|_]; [intros _; left; reflexivity|]. intros H. right. apply IH. exact H.
 Qed.
 
 Lemma path_facts I rank : acyclic_rank I rank -> forall l c, path I c l ->
@@ -383,7 +699,7 @@ Theorem map_member_direct sel R I c k v :
   map_member_fail sel (default_fuel I) R I c k = Ok (Some v) /\
   map_member sel (default_fuel I) R I c k = Ok v.
 Proof.
-  intros H. unfold map_member, default_fuel. cbn [map_member_fail]. rewrite H. auto.
+  intros H. unfold map_member, map_member_fail, default_fuel. cbn [map_member_fail_m existsb outcome_res]. rewrite H. auto.
 Qed.
 
 Lemma first_declaring_none decl l : (forall x, In x l -> decl x = None) -> first_declaring decl l = None.
